@@ -51,6 +51,20 @@ Definition as_match_fn (v : val) : match_fn :=
                                          map as_nat (as_list (arg (arg e 1) 2)))
                             end)) (as_list v)).
 
+(* the delimiter as the stripping spec sees it *)
+Definition as_dspec (v : val) : dspec :=
+  match as_delim v with DAwk => DSAwk | DStr sep => DSLiteral sep | DRegex rx => DSRegexp rx end.
+
+Definition as_fexprs (v : val) : list fexpr := map as_fexpr (as_list v).
+
+(* template part: [0, text] | [1] ({n}) | [2, [expr...]] (spec) / [2, [range...]] (model) *)
+Definition as_tpart (v : val) : tpart :=
+  let k := as_int (arg v 0) in
+  if k =? 0 then TLit (as_str (arg v 1)) else if k =? 1 then TIndex else TFields (as_fexprs (arg v 1)).
+Definition as_nth_part (v : val) : nth_part :=
+  let k := as_int (arg v 0) in
+  if k =? 0 then PStr (as_str (arg v 1)) else if k =? 1 then PIndex else PNth (as_ranges (arg v 1)).
+
 Definition vres {A} (f : A -> val) (r : res A) : val := match r with Ok a => f a | Err _ => verr end.
 
 (* positions of a match: [] = no match | [s, e, [pos...]] *)
@@ -97,4 +111,27 @@ Definition dispatch_token (op : Z) (a : val) : option val :=
     Some (vbool (inside_selection (as_fexpr (arg a 0)) (as_nat (arg a 2)) (as_strs (arg a 1))
                                   (as_nat (arg a 3)) (as_nat (arg a 4))))
   else if op =? 1016 then Some (vstr (print_fexpr (as_fexpr a)))
+  (* [delim, text] -> text without its last delimiter and trailing white space *)
+  else if op =? 1017 then Some (vstr (output_text (as_dspec (arg a 0)) (as_str (arg a 1))))
+  (* [delim, exprs, fields] -> the texts --nth searches *)
+  else if op =? 1018 then
+    Some (vstrs (search_texts (as_dspec (arg a 0)) (as_fexprs (arg a 1)) (as_strs (arg a 2))))
+  (* [delim, parts, fields, index, accept] -> rendered template (accept = 1: --accept-nth output) *)
+  else if op =? 1019 then
+    Some (let d := as_dspec (arg a 0) in
+          let s := render_template d (as_strs (arg a 2)) (as_int (arg a 3)) (map as_tpart (as_list (arg a 1))) in
+          vstr (if as_int (arg a 4) =? 1 then output_text d s else s))
+  (* [delim, preserve, exprs, fields] -> what {EXPR,...} stands for in a command (before quoting) *)
+  else if op =? 1020 then
+    Some (vstr (placeholder_text (as_dspec (arg a 0)) (as_bool (arg a 1)) (as_fexprs (arg a 2)) (as_strs (arg a 3))))
+  (* ---- model (second part) ---- *)
+  (* [parts, line, delim, index, accept] *)
+  else if op =? 1021 then
+    Some (let parts := map as_nth_part (as_list (arg a 0)) in
+          vres vstr (if as_int (arg a 4) =? 1
+                     then accept_nth_template parts (as_str (arg a 1)) (as_delim (arg a 2)) (as_int (arg a 3))
+                     else with_nth_template parts (as_str (arg a 1)) (as_delim (arg a 2)) (as_int (arg a 3))))
+  (* [line, ranges, delim, preserve] *)
+  else if op =? 1022 then
+    Some (vres vstr (placeholder_fields (as_str (arg a 0)) (as_ranges (arg a 1)) (as_delim (arg a 2)) (as_bool (arg a 3))))
   else None.
